@@ -20,6 +20,7 @@ import (
 	"encoding/binary"
 	"errors"
 	"fmt"
+	"github.com/gokrazy/rsync/internal/rsyncdconfig"
 	"io"
 	"net"
 	"os"
@@ -298,6 +299,77 @@ func suiteDaemon(h *H) {
 		panic(err)
 	}
 	defer os.RemoveAll(base)
+	// ---- the configuration file: what the daemon believes about a module is what that module's own table
+	// says — a key that is absent has its default (not writable, no ACL), wherever the module stands in the file
+	if h.extra == nil {
+		for i := 0; i < h.n(60, 1500); i++ {
+			type mspec struct {
+				name     string
+				writable int // -1 absent, 0 false, 1 true
+				acl      []string
+				hasACL   bool
+			}
+			nm := 1 + h.rng.Intn(4)
+			var ms []mspec
+			var toml strings.Builder
+			toml.WriteString("[[listener]]\nrsyncd = \"localhost:0\"\n")
+			for k := 0; k < nm; k++ {
+				m := mspec{name: fmt.Sprintf("m%d", k), writable: h.pick(-1, -1, 0, 1, 1)}
+				if h.rng.Intn(3) == 0 {
+					m.hasACL = true
+					m.acl = [][]string{{"deny all"}, {"allow 10.0.0.0/8", "deny all"}, {}}[h.rng.Intn(3)]
+				}
+				ms = append(ms, m)
+				fmt.Fprintf(&toml, "\n[[module]]\n")
+				keys := []string{"name", "path", "writable", "acl"}
+				h.rng.Shuffle(len(keys), func(a, b int) { keys[a], keys[b] = keys[b], keys[a] })
+				for _, key := range keys {
+					switch key {
+					case "name":
+						fmt.Fprintf(&toml, "name = %q\n", m.name)
+					case "path":
+						fmt.Fprintf(&toml, "path = %q\n", filepath.Join(base, "cfg", m.name))
+					case "writable":
+						if m.writable >= 0 {
+							fmt.Fprintf(&toml, "writable = %v\n", m.writable == 1)
+						}
+					case "acl":
+						if m.hasACL {
+							var q []string
+							for _, a := range m.acl {
+								q = append(q, fmt.Sprintf("%q", a))
+							}
+							fmt.Fprintf(&toml, "acl = [%s]\n", strings.Join(q, ", "))
+						}
+					}
+				}
+			}
+			cfg, err := rsyncdconfig.FromString(toml.String())
+			outc, v := "ok", ""
+			if err != nil {
+				outc = "err"
+				v = "FAIL[C07] a valid configuration file is rejected: " + err.Error()
+			} else if len(cfg.Modules) != len(ms) {
+				v = fmt.Sprintf("FAIL[C07] the configuration file has %d modules, the daemon sees %d", len(ms), len(cfg.Modules))
+			} else {
+				for k, m := range ms {
+					got := cfg.Modules[k]
+					if got.Name != m.name || got.Path != filepath.Join(base, "cfg", m.name) {
+						v = fmt.Sprintf("FAIL[C07] module %d of the configuration file is read as %q at %q", k, got.Name, got.Path)
+					}
+					if got.Writable != (m.writable == 1) {
+						v = fmt.Sprintf("FAIL[C07] module %q %s in the configuration file, the daemon treats it as writable=%v", m.name,
+							map[int]string{-1: "has no writable key", 0: "says writable = false", 1: "says writable = true"}[m.writable], got.Writable)
+					}
+					if strings.Join(got.ACL, "|") != strings.Join(m.acl, "|") {
+						v = fmt.Sprintf("FAIL[C19] module %q has the access list %q in the configuration file, the daemon uses %q", m.name, m.acl, got.ACL)
+					}
+				}
+			}
+			h.emit(fmt.Sprintf("!config seed=%d case=%d modules=%d", h.seed, i, nm), outc, v, nm > 1)
+			h.stat("daemon.config")
+		}
+	}
 	out := filepath.Join(base, "outside")
 	mk := func(p string, data string) {
 		os.MkdirAll(filepath.Dir(p), 0o755)
